@@ -186,6 +186,18 @@ PatchAll(o, kv) ==
 MergePatch(d, patch) ==
     IF ~IsObj(patch) THEN patch ELSE PatchAll(IF IsObj(d) THEN d ELSE JObj(<<>>), patch.kv)
 
+\* Classification of JSON_MERGE_PATCH cases: some null member of the patch (at any depth) meets a target
+\* that is not an object (there is nothing to delete, the member must simply not appear).
+RECURSIVE HasNullMember(_)
+HasNullMember(pt) == IsObj(pt) /\ \E i \in 1..Len(pt.kv) : pt.kv[i][2].t = "z" \/ HasNullMember(pt.kv[i][2])
+RECURSIVE NullOntoNonObject(_, _)
+NullOntoNonObject(d, pt) ==
+    /\ IsObj(pt)
+    /\ IF ~IsObj(d) THEN HasNullMember(pt)
+       ELSE \E i \in 1..Len(pt.kv) :
+              NullOntoNonObject(IF HasKey(d, pt.kv[i][1]) THEN ValOf(d, pt.kv[i][1]) ELSE JNull, pt.kv[i][2])
+PatchKind(d, pt) == IF NullOntoNonObject(d, pt) THEN "patch-null-onto-nonobject" ELSE "patch"
+
 \* How a path meets a document (classification of disagreements, and the addressing preconditions of
 \* the laws): the first step that does not select an existing member / cell in the plain way.
 \*   "natural"   every step selects an existing member of an object / cell of an array
